@@ -140,6 +140,42 @@ def _check_launch(call, command, args, envsel, envval):
     return "ok"
 
 
+def pick_command(i):
+    # commands as they occur in real configurations (bare names found on the host PATH, absolute, relative, unknown, with a space)
+    if i == 0:
+        return "sh"
+    if i == 1:
+        return "python3"
+    if i == 2:
+        return "/opt/tools/my server"
+    if i == 3:
+        return "./bin/run"
+    if i == 4:
+        return "no-such-command-anywhere"
+    return "env"
+
+
+def pick_arg(i):
+    if i == 0:
+        return "--flag"
+    if i == 1:
+        return "with space and 'quotes' \"dq\""
+    if i == 2:
+        return ""
+    if i == 3:
+        return "unicod\u00e9 \U0001f600"
+    return "-c"
+
+
+def corpus_entry(which, csel, asel, envsel):
+    command, args = pick_command(csel), [pick_arg(asel), pick_arg((asel + 1) % 5)]
+    if which == 0:
+        return loader(command, args, envsel, "v", 0, False, True)
+    if which == 1:
+        return cli_test_server(command, args, envsel, "v", 0)
+    return runner(command, args, envsel, "v", 1)
+
+
 def loader(command, args, envsel, envval, tsel, extra_key, others):
     """configuration loader -> StdioClient.__aenter__ -> process spawn"""
     cfg = {"mcpServers": {"target": server_entry(command, args, envsel, envval, tsel, extra_key)}}
